@@ -197,7 +197,7 @@ def workers_family(ctx, exe, d, r, g, violations):
     (`atomicFormat`); all dates of the input have ONE format, the case in which every schedule answers what a sequential
     evaluation answers (theorem time_cache_workers_same_layout)."""
     exe_race = build_rare(ctx, race=True)
-    n = 6 if ctx["tier"] == "quick" else 60
+    n = 6 if ctx["tier"] == "quick" else 40
     if os.environ.get("VERIF_C10_CLI_WORKERS"):
         n = int(os.environ["VERIF_C10_CLI_WORKERS"])
     env = {k: v for k, v in os.environ.items() if k != "RARE_FUNC_FILES"}
@@ -456,7 +456,7 @@ def run(ctx):
                 label="fixed-%d" % i)
 
     # --- generated definition files ---------------------------------------------------------------------------------------
-    n = 400 if ctx["tier"] == "quick" else 6000
+    n = 400 if ctx["tier"] == "quick" else 3000
     if os.environ.get("VERIF_C10_CLI_CASES"):
         n = int(os.environ["VERIF_C10_CLI_CASES"])
     for ci in range(n):
